@@ -54,6 +54,55 @@ def backend_classes(sym):
     return sorted(out, key=lambda c: c.name)
 
 
+def _store_supplied_by_interpretation(chk, repo):
+    """ImplStore.get_impl interpreted with a probe implementation that wants every keyword: which keyword-only arguments
+    does the returned wrapper add on its own, and does it filter the caller's keywords by the implementation's signature?
+    -> set of supplied names, or None when the function cannot be interpreted"""
+    from ..catalogue import _ModuleNS
+    from ..interp import Native, Obj, PyRaise, SymbolicBranch
+    from ..program import Program
+
+    try:
+        prog = Program(repo, primary="backend.impl_store")
+        smod = repo.mod("backend.impl_store")
+        env = prog.env_of(smod)
+        KW, POS = "KEYWORD_ONLY", "POSITIONAL_OR_KEYWORD"
+
+        class _Sig:
+            def __init__(self, params):
+                self.parameters = params
+
+        got = {}
+
+        def probe(*args, **kwargs):
+            got["args"], got["kwargs"] = args, dict(kwargs)
+            return "result"
+
+        probe_native = Native(probe, "probe_impl")
+        wanted = ["_sig", "_Impl", "wanted"]
+
+        def signature(f):
+            params = {"x": _ModuleNS({"kind": POS})}
+            params.update({k: _ModuleNS({"kind": KW}) for k in wanted})
+            return _ModuleNS({"parameters": params})
+
+        env["inspect"] = _ModuleNS({"signature": Native(signature, "inspect.signature"), "Parameter": _ModuleNS({"KEYWORD_ONLY": KW, "POSITIONAL_OR_KEYWORD": POS})})
+        op = Obj(prog.cls("tree.verbs", "Ungroup"))
+        store = prog.new("backend.impl_store", "ImplStore", impl_trie={}, default_impl={op: probe_native})
+        wrapper = prog.call(prog.method(store, "get_impl"), [op, ("T1", "T2")])
+        prog.call(wrapper, ["X"], {"_Impl": "I", "wanted": 1, "unwanted": 2})
+        kw = got.get("kwargs", {})
+        if got.get("args") != ("X",) or "unwanted" in kw or kw.get("wanted") != 1 or kw.get("_Impl") != "I":
+            chk.ob("R3", smod, smod.func("ImplStore.get_impl"), "ImplStore.get_impl wrapper passes positional arguments and exactly the keywords the implementation declares",
+                   False, f"the wrapper returned by get_impl calls the implementation with {got}: keywords must be filtered by its keyword-only parameters")  # fmt: skip
+        else:
+            chk.ok("R3", smod, smod.func("ImplStore.get_impl"), f"get_impl wrapper interpreted: forwards declared keywords, adds {sorted(set(kw) - {'_Impl', 'wanted'})} (= the matched signature: {kw.get('_sig') == ('T1', 'T2')})")
+        return set(kw) - {"_Impl", "wanted"}
+    except (AnalysisError, SymbolicBranch, PyRaise, KeyError) as e:
+        chk.note(f"R3: ImplStore.get_impl could not be interpreted ({str(e)[:120]}); keywords it supplies read from its lambda")
+        return None
+
+
 def dispatcher_kwargs(chk, m):
     """keyword arguments each back end's expression dispatcher always / sometimes
     passes to an implementation, derived from the dispatcher source"""
@@ -62,12 +111,14 @@ def dispatcher_kwargs(chk, m):
     # --- keys the ImplStore wrapper itself supplies
     store_mod = repo.mod("backend.impl_store")
     get_impl = store_mod.func("ImplStore.get_impl")
-    store_supplied = set()
-    for n in ast.walk(get_impl):
-        if isinstance(n, ast.Lambda):
-            for d in ast.walk(n):
-                if isinstance(d, ast.Dict):
-                    store_supplied |= {k.value for k in d.keys if isinstance(k, ast.Constant) and isinstance(k.value, str)}
+    store_supplied = _store_supplied_by_interpretation(chk, repo)
+    if store_supplied is None:
+        store_supplied = set()
+        for n in ast.walk(get_impl):
+            if isinstance(n, ast.Lambda):
+                for d in ast.walk(n):
+                    if isinstance(d, ast.Dict):
+                        store_supplied |= {k.value for k in d.keys if isinstance(k, ast.Constant) and isinstance(k.value, str)}
     chk.used(store_mod, get_impl)
 
     def analyse(mod, func, label, all_callers_mods):
